@@ -180,6 +180,59 @@ theorem len64_low_sign_bit_refused (b0 : UInt8) (hi lo : Nat) (hhi : hi < 2 ^ 32
     rw [if_pos trivial] at h3
     omega
 
+/-! ## truncation -/
+
+/-- frames are self-delimiting: what the frame reader returns for a frame does not depend on the bytes
+    that follow it -/
+theorem frames_self_delimiting (inp more : List UInt8) (fin : Bool) (op : Nat) (buf rest : List UInt8)
+    (h : readFrame inp = .ok fin op buf rest) : readFrame (inp ++ more) = .ok fin op buf (rest ++ more) :=
+  readFrame_append inp more fin op buf rest h
+
+/-- **A frame cut short is never delivered** (the defect repaired in 7971835): for every RFC frame — any
+    opcode, masked or not, any payload up to 2^31 − 16 bytes — and every cut offset inside it, the frame
+    reader answers "close": no buffer, no uninitialised bytes, nothing echoed in a pong. -/
+theorem truncated_frame_not_delivered (fin : Bool) (op : Nat) (hop : op < 16) (key : Option Rfc6455.Key) (p : List UInt8)
+    (hl : Fits p) (k : Nat) (hk : k < (Rfc6455.frame fin op key p).length) :
+    readFrame ((Rfc6455.frame fin op key p).take k) = .close :=
+  truncated_frame_close fin op hop key p hl k hk
+
+/-- **Cut inside the first frame of a message (or inside a control frame between messages), at any offset**:
+    the complete messages before the cut are delivered intact, once, in order; the cut frame yields
+    nothing; the connection ends closed. -/
+theorem truncation_partial (isClient : Bool) (rng : Rng) (ms : List Rfc6455.Msg) (cs : List Rfc6455.Ctl)
+    (fin : Bool) (op : Nat) (hop : op < 16) (key : Option Rfc6455.Key) (p : List UInt8) (k : Nat)
+    (hfit : ∀ m ∈ ms, MsgFits m) (hcs : CtlsFit cs) (hp : Fits p) (hne : ∀ m ∈ ms, m.payload ≠ [])
+    (hk0 : 0 < k) (hk : k < (Rfc6455.frame fin op key p).length) :
+    let r := run { isClient := isClient, rng := rng,
+                   inp := ms.flatMap Rfc6455.Msg.bytes ++ (Rfc6455.ctlBytes cs ++ (Rfc6455.frame fin op key p).take k) }
+    r.1.filter (· ≠ []) = ms.map (·.payload) ∧ r.2.closed = true ∧ r.2.fault = false := by
+  intro r
+  obtain ⟨extra, c', h1, h2, h3, h4⟩ := receiveAll_cut ms cs fin op hop key p k
+    { isClient := isClient, rng := rng, inp := ms.flatMap Rfc6455.Msg.bytes ++ (Rfc6455.ctlBytes cs ++ (Rfc6455.frame fin op key p).take k) }
+    ⟨rfl, rfl⟩ hfit hcs hp hk0 hk rfl
+  have hr : r = (extra, c') := h1
+  have hall : (ms.map (·.payload)).filter (· ≠ []) = ms.map (·.payload) := by
+    apply List.filter_eq_self.mpr
+    intro q hq
+    obtain ⟨m, hm, rfl⟩ := List.mem_map.mp hq
+    simpa using hne m hm
+  rw [hr]
+  exact ⟨by rw [← hall, ← h2], h3, h4⟩
+
+/-- the general statement for a cut at *any* offset of a conversation (also inside a continuation frame):
+    the non-empty results are the payloads of the messages wholly before the cut, followed by at most one
+    more result, a prefix of the payload of the message being cut (the fragments already received).
+    Not yet a theorem (the cases "cut inside a continuation frame" are validated by the correspondence
+    check on every offset of short streams); `truncation_partial` + `hostile_safe` are the proved part. -/
+def truncation_full : Prop :=
+  ∀ (isClient : Bool) (rng : Rng) (ms : List Rfc6455.Msg) (trailing : List Rfc6455.Ctl) (k : Nat),
+    (∀ m ∈ ms, MsgFits m) → CtlsFit trailing → (∀ m ∈ ms, m.payload ≠ []) →
+    let r := run { isClient := isClient, rng := rng, inp := (Rfc6455.wire ms trailing).take k }
+    ∃ (n : Nat) (extra : List (List UInt8)), n ≤ ms.length ∧
+      r.1.filter (· ≠ []) = (ms.take n).map (·.payload) ++ extra ∧
+      (extra = [] ∨ ∃ m q, ms[n]? = some m ∧ extra = [q] ∧ q <+: m.payload) ∧
+      r.2.closed = true ∧ r.2.fault = false
+
 /-! ## handshake -/
 
 /-- the value the server puts into `Sec-WebSocket-Accept` is base64(H(key ‖ GUID)) with the RFC 4648
@@ -188,6 +241,15 @@ theorem accept_key_rfc_partial (key : List UInt8) :
     acceptKey key = C15.Rfc.base64 (AslModel.Sha1.Impl.hash (key ++ Rfc6455.guid)) := by
   unfold acceptKey
   rw [C15.base64_rfc, guid_is_rfc]
+
+/-- the example of RFC 6455 §1.3: key `dGhlIHNhbXBsZSBub25jZQ==` gives `s3pPLMBiTxaQ9kYGzzhZRbK+xOo=` — evaluated by the
+    kernel both through the model the driver runs and through the FIPS/RFC specification functions -/
+theorem accept_key_rfc_sample :
+    acceptKey [100, 71, 104, 108, 73, 72, 78, 104, 98, 88, 66, 115, 90, 83, 66, 117, 98, 50, 53, 106, 90, 81, 61, 61]
+      = [115, 51, 112, 80, 76, 77, 66, 105, 84, 120, 97, 81, 57, 107, 89, 71, 122, 122, 104, 90, 82, 98, 75, 43, 120, 79, 111, 61] ∧
+    C15.Rfc.base64 (AslModel.Sha1.Fips.sha1 ([100, 71, 104, 108, 73, 72, 78, 104, 98, 88, 66, 115, 90, 83, 66, 117, 98, 50, 53, 106, 90, 81, 61, 61] ++ Rfc6455.guid))
+      = [115, 51, 112, 80, 76, 77, 66, 105, 84, 120, 97, 81, 57, 107, 89, 71, 122, 122, 104, 90, 82, 98, 75, 43, 120, 79, 111, 61] := by
+  constructor <;> decide +kernel
 
 /-- the full statement: H is FIPS 180-4 SHA-1.  It follows from `accept_key_rfc_partial` once
     `Impl.hash = Fips.sha1` (C15's `sha1_eq_spec`, validated there by the correspondence check, not yet a theorem). -/
